@@ -1005,6 +1005,17 @@ def install(reg):
     for t in (CT,) + _A_TYPES:
         reg.attr_models[t] = strict_attr
 
+    # ---- name-independent loop support: arbitrary value of an abstract image / stack; iteration over a symbolic list of images
+    reg.havoc_models = dict(getattr(reg, "havoc_models", {}))
+    reg.havoc_models[AT] = lambda ctx, name, old: fresh_image(ctx, name) if old.lead == () else fresh_stack(ctx, name, old.lead[0])
+    reg.iter_models = dict(getattr(reg, "iter_models", {}))
+
+    def iter_alist(interp, l):
+        f, hw = l.fn, l.hw
+        return l.n, (lambda k: AT((), (lambda _k=lift(k): f(_k)), hw))
+
+    reg.iter_models[AList] = iter_alist
+
     # ---- isinstance / len / list methods ---------------------------------------------------------------------------
     old_isinst = getattr(reg, "isinstance_model", None)
 
